@@ -158,6 +158,41 @@ fn hostile_frames() -> Vec<(String, Vec<u8>)> {
     for (name, modes, sym) in [("rle LL 36", 0x40u8, 36u8), ("rle OF 32", 0x10, 32), ("rle ML 53", 0x04, 53), ("rle OF 31", 0x10, 31), ("rle LL 255", 0x40, 255)] {
         v.push((name.into(), frame_with_body(&[0x00, 0x01, modes, sym, 0xFF, 0xFF, 0xFF, 0xFF, 0xFF, 0xFF, 0xFF, 0x01])));
     }
+    // Huffman weights described through FSE can take values a direct description cannot (every value 0..=255 is a
+    // symbol of the weights' table): literals sections whose tree description names a weight of 12, 16, 32, 33, 64, 255
+    for x in [12u16, 16, 32, 33, 64, 255] {
+        let head = vec![1u8, 1, 2, x as u8];
+        let mut dist = vec![0i16; x as usize + 1];
+        dist[1] = 30;
+        dist[2] = 16;
+        dist[x as usize] += 18;
+        if let Some(desc) = zmodel::huf::describe_fse(&head, &dist, 6) {
+            // compressed literals, one stream, regenerated 8, compressed size = description + 2 stream bytes
+            let comp = desc.len() + 2;
+            // header: type 2, size format 0 (one stream, 10-bit sizes): [type:2][format:2][regenerated:10][compressed:10]
+            let mut body = vec![0x02 | ((8 & 0xF) << 4) as u8, ((8 >> 4) & 0x3F) as u8 | ((comp & 3) << 6) as u8, (comp >> 2) as u8];
+            body.extend(&desc);
+            body.extend(&[0xFF, 0x01]);
+            body.push(0x00);
+            v.push((format!("FSE-described Huffman weight {x}"), frame_with_body(&body)));
+        }
+    }
+    // a weights table with a single symbol of full probability: every state decodes it with zero bits, the decoder's
+    // weight loop never consumes anything - only its count limit ends it
+    for (name, dist) in [("weight 0 only", vec![64i16]), ("weight 1 only", vec![0i16, 64]), ("weight 0 nearly only", vec![63i16, 1])] {
+        for stream in [vec![0x01u8], vec![0x80], vec![0xFF, 0xFF, 0x01]] {
+            let mut desc_body = zmodel::fse::describe(&dist, 6);
+            desc_body.extend(&stream);
+            let mut desc = vec![desc_body.len() as u8];
+            desc.extend(desc_body);
+            let comp = desc.len() + 2;
+            let mut body = vec![0x02 | ((8 & 0xF) << 4) as u8, ((8 >> 4) & 0x3F) as u8 | ((comp & 3) << 6) as u8, (comp >> 2) as u8];
+            body.extend(&desc);
+            body.extend(&[0xFF, 0x01]);
+            body.push(0x00);
+            v.push((format!("FSE weights table with {name}, stream {stream:02x?}"), frame_with_body(&body)));
+        }
+    }
     // jump table pointing past the streams; four streams with almost no data
     v.push(("jump table past end".into(), frame_with_body(&[0x02 | 1 << 2 | 8 << 4, 0x00 | 9 << 6, 0x02, 0x81, 0x11, 0xFF, 0xFF, 0xFF, 0xFF, 0xFF, 0xFF, 0x00])));
     // sequence count far above what the bit stream holds
